@@ -363,7 +363,7 @@ func enumerate(n int, memo map[int][]*node) []*node {
 }
 
 var namePool = []string{"a", "b", "c", "ab", "a.b", "B", "b c", "-x", "\xc3\xa9"}
-var contentPool = []string{"", "x", "y", "xy", "yx", "a", "\x02", "\x02a", "x\x02", "\x02\x02", "line\n", "\x00\xff"}
+var contentPool = []string{"", "x", "y", "xy", "yx", "a", "\x02", "\x02a", "x\x02", "\x02\x02", "line\n", "\x00\x7f"}
 var targetPool = []string{"a", "b", "x", "a/b", "../a", "./b", "\x02"}
 
 func randTree(r *lib.Rng, depth int) *node {
@@ -614,6 +614,9 @@ func main() {
 		for i := 0; i < nBase; i++ {
 			r := c.Rng.Fork()
 			t := randTree(r, r.Range(1, 3))
+			for try := 0; try < 3 && t.Kind != 'd' && r.Chance(4, 5); try++ {
+				t = randTree(r, r.Range(1, 3)) // mostly directories at the root
+			}
 			add(t, r, "random")
 			cur := t
 			for j := 0; j < nMut; j++ {
@@ -647,27 +650,34 @@ func main() {
 			c.Oracle() // pairs with different streams: the property holds on them
 		}
 		// smallest pairs first: lib keeps the first three failing inputs per class
-		sort.SliceStable(colliding, func(i, j int) bool {
-			si := pool[colliding[i].a].t.size() + pool[colliding[i].b].t.size()
-			sj := pool[colliding[j].a].t.size() + pool[colliding[j].b].t.size()
-			return si < sj
-		})
-		perClassCases := map[string]int{}
-		capCases := c.Scale(60, 400)
-		for _, p := range colliding {
-			a, b := pool[p.a].t, pool[p.b].t
-			c.Oracle()
-			cls := classify(a, b, true)
+		weight := func(p pr) int {
+			return 1000*(pool[p.a].t.size()+pool[p.b].t.size()) + len(pool[p.a].t.key()) + len(pool[p.b].t.key())
+		}
+		sort.SliceStable(colliding, func(i, j int) bool { return weight(colliding[i]) < weight(colliding[j]) })
+		classes := make([]string, len(colliding))
+		classTotal := map[string]int{}
+		for i, p := range colliding {
+			cls := classify(pool[p.a].t, pool[p.b].t, true)
 			if cls == "" {
 				cls = clsUnknown
 			}
+			classes[i] = cls
+			classTotal[cls]++
+		}
+		// classifier tie (Go classify = Coq defect_class): an evenly spread sample of every class
+		capCases := c.Scale(60, 400)
+		seenOfClass := map[string]int{}
+		for i, p := range colliding {
+			a, b, cls := pool[p.a].t, pool[p.b].t, classes[i]
+			c.Oracle()
 			c.Fail(cls, fmt.Sprintf("distinct trees, equal hash input %q", pool[p.a].stream), pairJS(a, b))
 			c.Hist("collision_class", cls)
-			if cls != clsUnknown && perClassCases[cls] < capCases {
-				perClassCases[cls]++
+			stride := max(1, classTotal[cls]/capCases)
+			if k := seenOfClass[cls]; cls != clsUnknown && k%stride == 0 && k/stride < capCases {
 				c.Case(lib.App("CClass", a.coq(nil), b.coq(nil), lib.Some(coqClass[cls])), map[string]any{"pair": pairJS(a, b), "class": cls},
 					"p"+a.key()+b.key(), true)
 			}
+			seenOfClass[cls]++
 		}
 		c.Note("pairs: %d trees, %d unordered pairs, %d with equal streams", len(pool), total, len(colliding))
 
@@ -684,7 +694,11 @@ func main() {
 			}
 			a, b := pool[x].t, pool[y].t
 			if cls := classify(a, b, false); cls != "" {
-				panic(fmt.Sprintf("oracle classifier unsound: %s for a pair with different streams: %s %s", cls, a.key(), b.key()))
+				// the classifier's classes are collisions of the UNCHANGED code by construction (Coq: classified_collides);
+				// a pair in a class whose real streams differ means the implementation hashes something else now.
+				// Not a failure of C09 by itself: leave it to the correspondence, which must disagree on one of the two trees.
+				c.Hist("classified_but_distinct_streams", cls)
+				continue
 			}
 			c.Case(lib.App("CClass", a.coq(nil), b.coq(nil), "None"), map[string]any{"pair": pairJS(a, b), "class": nil}, "n"+a.key()+b.key(), false)
 		}
